@@ -137,7 +137,7 @@ fn parse_case(rng: &mut Rng, ctx: &mut Ctx, idx: u64) {
         };
         (format!("{}{}", digits, u).into_bytes(), "wellformed")
     } else {
-        let bad: Vec<u8> = match rng.below(14) {
+        let bad: Vec<u8> = match rng.below(15) {
             0 => vec![],
             1 => b"5".to_vec(),
             2 => b"S".to_vec(),
@@ -151,6 +151,12 @@ fn parse_case(rng: &mut Rng, ctx: &mut Ctx, idx: u64) {
             10 => format!("{}.5S", rng.below(10)).into_bytes(),
             11 => format!("1e{}S", rng.below(5)).into_bytes(),
             12 => b"99999999999999999999999999999999H".to_vec(),
+            13 => {
+                // more than 8 digits whose numeric value would fit: the grammar counts digits
+                let nd = rng.urange(1, 8);
+                let tail: String = (0..nd).map(|_| (b'0' + rng.below(10) as u8) as char).collect();
+                format!("{}{}{}", "0".repeat(rng.urange(9 - nd, 30)), tail, rng.pick(&UNITS).0).into_bytes()
+            }
             _ => {
                 let mut v = rng.bytes_range(1, 10);
                 for b in v.iter_mut() {
@@ -243,7 +249,7 @@ fn enforce_case(rng: &mut Rng, ctx: &mut Ctx) {
         (header_ms, server_ms, endpoint_ms)
     };
     // a malformed caller header must simply be ignored: the configured timeouts still apply
-    let malformed: Option<&str> = if header_ms.is_none() && rng.chance(2, 3) { Some(*rng.pick(&["1.5S", "30", "S", "123456789S", "5s", "10 S", "+5S", "-1S", "1e3m", ""])) } else { None };
+    let malformed: Option<&str> = if header_ms.is_none() && rng.chance(2, 3) { Some(*rng.pick(&["1.5S", "30", "S", "123456789S", "000000002m", "0000000000000000000001u", "5s", "10 S", "+5S", "-1S", "1e3m", ""])) } else { None };
     let eff: Option<u64> = [header_ms, server_ms, endpoint_ms].iter().flatten().min().copied();
     let latency = match (eff, rng.below(5)) {
         (Some(0), 0..=3) => base,
